@@ -736,6 +736,8 @@ func driveHandshakes(c *hx.Ctx) error {
 
 const umaskHelperArg = "-umask-helper"
 
+var sockProbeN int // alternates the order of the disable and socket-path options
+
 type sockCase struct {
 	DontListen bool    `json:"dont_listen"`
 	Umask      int64   `json:"umask"`
@@ -759,7 +761,13 @@ func sockProbe(dir string, dontListen bool, umask int, setMask func(int) int) so
 	sock := filepath.Join(levels[2], "nri.sock")
 	var opts []adaptation.Option
 	if dontListen {
-		opts = append(opts, adaptation.WithDisabledExternalConnections())
+		// options are applied in order: disabling must hold whether it is given before or after the socket path
+		sockProbeN++
+		if sockProbeN%2 == 0 {
+			opts = append(opts, adaptation.WithDisabledExternalConnections(), adaptation.WithSocketPath(sock))
+		} else {
+			opts = append(opts, adaptation.WithDisabledExternalConnections())
+		}
 	}
 	syncFn := func(ctx context.Context, cb adaptation.SyncCB) error { _, err := cb(ctx, nil, nil); return err }
 	a, err := newAdaptation(dir, sock, syncFn, opts...)
